@@ -85,7 +85,7 @@ Definition map_entry_cond (x : val) : list val :=
   match x with
   | VNamed key v =>
     match v with
-    | VDrv _ | VGormValuer _ _ => [VCmp OEq (VQStr key) v]
+    | VDrv _ | VGormValuer _ _ | VS (SBytes _) => [VCmp OEq (VQStr key) v]   (* []byte: one value *)
     | _ => match slice_elems v with
            | Some vs => [VIn (VQStr key) vs]
            | None => [VCmp OEq (VQStr key) v]
